@@ -134,6 +134,9 @@ func cmdSpvSem(c *ctx) {
 		if hasMultiSpill(m) {
 			shape = " spill2"
 		}
+		if hasLetSnapshot(m) {
+			shape += " letsnap"
+		}
 		c.line("tags.txt", fmt.Sprintf("%s v%d.%d debug=%v loopbound=%v%s", knob, opts.Version.Major, opts.Version.Minor, opts.Debug, opts.ForceLoopBounding, shape))
 		if c.stats["shrunk"] < 8 {
 			if d == nil {
